@@ -10,7 +10,7 @@ package errorhandler
 // the response writer of one error kind: exactly one WriteHeader with the captured code; body and
 // Content-Type only when verbose responses are enabled.
 //@ func errorWriter$1
-//@   props C12
+//@   props C12 C01
 //@   ensures wh.n == old(wh.n) + 1 && wh.arg0[old(wh.n)] == rw && wh.arg1[old(wh.n)] == old(*code)
 //@   ensures !old((*options).verboseErrors) ==> wbody.n == old(wbody.n) && hset.n == old(hset.n)
 
